@@ -579,7 +579,7 @@ class StateSpace(NonlinearIOSystem, LTI):
             # Special case for SISO
             if self.issiso():
                 self = np.ones_like(other) * self
-            if self.ninputs != other.shape[0]:
+            if (self.noutputs, self.ninputs) != other.shape:
                 raise ValueError("array has incompatible shape")
             A, B, C = self.A, self.B, self.C
             D = self.D + other
